@@ -167,6 +167,31 @@ def run(ctx):
             if r[1] != exp:
                 ctx.report('gate-wrong-inplace', '%s/%s, %d-bit set: %s on %s inputs with the result object = input %s decrypts to %d, expected %d' % (backend, build, lam, g, kind, 'abc'[alias - 1], r[1], exp),
                            {'case': line[:200000], 'gate': g, 'kind': kind + ', result = input ' + 'abc'[alias - 1], 'expected_bit': exp, 'observed_bit': r[1], 'backend': backend, 'build': build})
+        # (v) one ciphertext object passed as two operands of the same gate (x op x, MUX(a, a, c), MUX(a, b, a), MUX(a, b, b)): the truth
+        #     table on equal bits
+        sl = []
+        for lam in (128, 80):
+            spec = fmt([lam, 0, 0, 0, 0, 0, 0, 0, 0, ctx.seed * 10 + (1 if lam == 128 else 2)])
+            g0 = ints(vlib.run_lines(exe, ['fullkey ' + spec], timeout=1800)[0]); n = g0[0]; s = g0[7:7 + n]
+            ERR = 2**27 - 4096
+            for gi, g in enumerate(GATES):
+                for x in (0, 1):
+                    e = rng.choice([rng.randrange(-2**17, 2**17), ERR, -ERR])
+                    ca = mk_sample(rng, s, (MU if x else -MU) + e); dummy = mk_sample(rng, s, (MU if 1 - x else -MU))
+                    sl.append((lam, 'gatecase %s %d %s' % (spec, gi + 400, ' '.join(fmt(a_) + ' ' + str(b_) for (a_, b_) in [ca, dummy, ([0] * n, 0)])), table(g, x, x), g, 'both operands are one object (bit %d)' % x))
+            for (al, f) in ((4, lambda a, b, c: a if a else c), (5, lambda a, b, c: b if a else a), (6, lambda a, b, c: b)):
+                for (a, b, c) in ((0, 0, 1), (1, 0, 1), (0, 1, 0), (1, 1, 0)):
+                    smp = [mk_sample(rng, s, (MU if q else -MU) + rng.choice([0, ERR, -ERR])) for q in (a, b, c)]
+                    sl.append((lam, 'gatecase %s %d %s' % (spec, 13 + 100 * al, ' '.join(fmt(a_) + ' ' + str(b_) for (a_, b_) in smp)), f(a, b, c), 'MUX', {4: 'b is the object a', 5: 'c is the object a', 6: 'c is the object b'}[al]))
+        if not thorough: sl = [x for x in sl if x[3] == 'MUX'][::2] + [x for x in sl if x[3] != 'MUX'][::(1 if build == 'optim' else 3)]
+        so = vlib.run_lines(exe, [x[1] for x in sl], timeout=7200)
+        for (lam, line, exp, g, what), o in zip(sl, so):
+            ctx.count((backend, build, 'shared-operands', line[:4000])); ncases += 1
+            if o.startswith('CRASH'): ctx.report('gate-crash', '%s/%s: %s where %s died: %s' % (backend, build, g, what, o[:80]), {'case': line[:200000], 'backend': backend, 'build': build}); continue
+            r = ints(o)
+            if r[1] != exp:
+                ctx.report('gate-wrong-shared-operands', '%s/%s, %d-bit set: %s where %s decrypts to %d, the truth table says %d' % (backend, build, lam, g, what, r[1], exp),
+                           {'case': line[:200000], 'gate': g, 'kind': what, 'expected_bit': exp, 'observed_bit': r[1], 'backend': backend, 'build': build})
     ctx.cov['gate_cases'] = ncases
     ctx.hypotheses['max |modulus-switch drift| on non-edge cases (units of 2^-32; gate margin is 2^28)'] = maxdrift
     ctx.hypotheses['max |output phase - (+-1/8)| (units of 2^-32; must stay below 2^29)'] = maxerr
